@@ -1,7 +1,7 @@
 (* Composite_check.v — correspondence between Model/Composite.v and the real
    composite controller: the model is run against the answers the
    implementation received; calls are compared per target. *)
-From MC Require Export Model.Verdict Model.Composite Model.TracePreds.
+From MC Require Export Model.Verdict Model.Composite Model.TracePreds Model.Safe.
 Local Open Scope list_scope.
 
 Record round := mkRound { r_cache : cache; r_events : list ev; r_result : sync_result;
@@ -93,7 +93,12 @@ Fixpoint first_divergence proj wr (c : ccfg) (rs : list round) (i : nat) : optio
                 | None => first_divergence proj wr c rs' (S i) end
   end.
 
+(* the environment assumption of the theorems (Safe.sane) holds of what the simulator answered *)
+Definition env_sane (c : ccase) : bool :=
+  forallb (fun r => forallb (fun e => saneb (e_call e) (e_ans e)) (r_events r)) (c_rounds c).
+
 Definition corr_check proj wr (c : ccase) : verdict :=
+  if negb (env_sane c) then DIVERGE "environment-assumption-sane" else
   match first_divergence proj wr (c_cfg c) (c_rounds c) 0 with
   | Some w => DIVERGE w
   | None => OK
